@@ -9,7 +9,7 @@ From Coq Require Import List ZArith Arith Bool.
 Import ListNotations.
 Local Open Scope string_scope.
 Local Open Scope list_scope.
-From YP Require Import Base.Str Term.Term Term.Show Term.Fast Term.Dfast Unify.Unify Unify.Fast Unify.UnifyGen Lang.Ast Comp.IR
+From YP Require Import Base.Str Term.Term Term.Show Term.Fast Term.Dfast Unify.Unify Unify.Fast Unify.UnifyGen Unify.UnifyGenFast Lang.Ast Comp.IR
   Comp.CompileBody Comp.CompileClause Sem.Machine Engine.GenMachine Engine.Restore Engine.RunGen Engine.IRMachine.
 
 (* def pyp(x): for v in (atom('a'), atom('c')): for _ in unify(x, v): yield False *)
@@ -36,6 +36,13 @@ Definition snapshot_x (h : heap) (nvars : nat) : obs :=
   OL (map (fun v => OL [obool (match lookup v h with Some _ => true | None => false end);
                         term_obs (aseq r (TVar v))]) (seq 0 nvars)).
 
+(* Only to CLASSIFY cases: the same machine whose unify leaves never refuse (no depth / occurs
+   pre-check).  When the run of the real machine ends by an exception and this one ends differently,
+   the exception came from a unification that needs a cyclic term: unspecified behaviour, the case
+   is reported as "cyc" and not compared. *)
+Definition mkleaf_nc (x : lx) (h : heap) : leaf :=
+  match x with XUnify a b => LGen (UnifyGenFast.mk_unify_x h a b) | _ => mkleaf x h end.
+
 Definition run_machine (fuel d : nat) (p : program) (db : list (str * nat * list fact)) (stk : list (term * term))
     (name : str) (args : list term) (nq kmax k : nat) : obs :=
   match compile_program p with
@@ -50,6 +57,13 @@ Definition run_machine (fuel d : nat) (p : program) (db : list (str * nat * list
           match m_nexts ir (facts_of db) pyp_user fuel d kmax h0 q with
           | None => otag "oof" []
           | Some (hf, itf, ys, r) =>
+              if (match r with
+                  | RRaise =>
+                      match nexts mkleaf_nc lnext lclose (prog ir (facts_of db) pyp_user) f_nxt fuel d kmax h0 q with
+                      | Some (_, _, ys', RRaise) => negb (Nat.eqb (length ys') (length ys))
+                      | _ => true end
+                  | _ => false end)
+              then otag "cyc" [] else
               match m_nexts ir (facts_of db) pyp_user fuel d k h0 q with
               | None => otag "oof" []
               | Some (hk, itk, ysk, rk) =>
